@@ -1,4 +1,5 @@
 import CffiVerif.Proofs.Preprocess
+import CffiVerif.Generated.PreprocessRegex
 
 /-!
 C31 — comments, spacing and line directives do not change a cdef's meaning (partial).
@@ -169,6 +170,125 @@ theorem multiline_comment_in_define_breaks_value :
     (macros exMultiline).toOption = some [([70, 79, 79], [])] ∧
     (macros exInline).toOption = some [([70, 79, 79], [53])] := by
   decide
+
+/-! ### The regular expressions of the source
+
+`Generated/PreprocessRegex.lean` is recompiled from `_r_comment` and `_r_define` of cparser.py on
+every run.  The transducer of `Model/Preprocess.lean` was written for one particular shape of
+these expressions; the theorems below pin that shape and the meaning of every character class, and
+identify the scanning functions of the model with the generic unit loop run on the extracted classes.
+They stop checking as soon as one of the expressions changes. -/
+section Source
+open CffiVerif.Regex CffiVerif.Generated.PreprocessRegex
+
+/-- `_r_comment` is `/\*` any`*?` `\*/` `|` `//` `([^\n\\] | \\ any)*?` `$`, DOTALL and MULTILINE. -/
+theorem comment_regex_shape :
+    commentShape =
+      { blockOpen := [47, 42], blockBody := ⟨true, []⟩, blockLazy := true, blockClose := [42, 47],
+        lineOpen := [47, 47],
+        lineBody := { plain := ⟨true, [.range 10 10, .range 92 92]⟩, esc := 92, escAny := ⟨true, []⟩, lazy := true },
+        lineEnd := .eol true } := by decide
+
+/-- `_r_define` is `^ \s* # \s* define \s+ ([A-Za-z_][A-Za-z_0-9]*) \b (([^\n\\] | \\ any)*?) $`. -/
+theorem define_regex_shape :
+    defineShape =
+      { start := .bol true, lead := ⟨false, [.cat .space false]⟩, hash := 35, gap1 := ⟨false, [.cat .space false]⟩,
+        keyword := [100, 101, 102, 105, 110, 101], gap2 := ⟨false, [.cat .space false]⟩,
+        nameStart := ⟨false, [.range 65 90, .range 97 122, .range 95 95]⟩,
+        nameRest := ⟨false, [.range 65 90, .range 97 122, .range 95 95, .range 48 57]⟩,
+        afterName := .wordb,
+        value := { plain := ⟨true, [.range 10 10, .range 92 92]⟩, esc := 92, escAny := ⟨true, []⟩, lazy := true },
+        stop := .eol true } := by decide
+
+/-- Meaning of the classes of `_r_comment`: the block body and the escaped character are "any code
+point" (DOTALL: newline included), a plain character of a `//` body is anything but newline and backslash. -/
+theorem comment_classes (c : Nat) :
+    commentShape.blockBody.mem c = true ∧ commentShape.lineBody.escAny.mem c = true ∧
+    commentShape.lineBody.plain.mem c = (c != 10 && c != 92) ∧ commentShape.lineBody.esc = 92 := by
+  refine ⟨rfl, rfl, ?_, rfl⟩
+  simp only [commentShape, CC.mem, List.any_cons, List.any_nil, Item.mem, Bool.or_false]
+  by_cases h10 : c = 10
+  · subst h10; decide
+  · by_cases h92 : c = 92
+    · subst h92; decide
+    · have a : (decide (10 ≤ c) && decide (c ≤ 10)) = false := by
+        simp only [Bool.and_eq_false_iff, decide_eq_false_iff_not]; omega
+      have b : (decide (92 ≤ c) && decide (c ≤ 92)) = false := by
+        simp only [Bool.and_eq_false_iff, decide_eq_false_iff_not]; omega
+      simp [a, b, h10, h92]
+
+/-- Meaning of the classes of `_r_define` (ASCII meaning of `\s`): exactly the tests of `matchDefine`. -/
+theorem define_classes (c : Nat) :
+    defineShape.lead.mem c = isSpace c ∧ defineShape.gap1.mem c = isSpace c ∧ defineShape.gap2.mem c = isSpace c ∧
+    defineShape.nameStart.mem c = isIdentStart c ∧ defineShape.nameRest.mem c = isIdentChar c ∧
+    defineShape.value = commentShape.lineBody := by
+  refine ⟨?_, ?_, ?_, ?_, ?_, by decide⟩
+  · simp [defineShape, CC.mem, Item.mem, Cat.mem, isSpace]
+  · simp [defineShape, CC.mem, Item.mem, Cat.mem, isSpace]
+  · simp [defineShape, CC.mem, Item.mem, Cat.mem, isSpace]
+  · have h95 : (decide (95 ≤ c) && decide (c ≤ 95)) = (c == 95) := by
+      rw [Bool.eq_iff_iff]
+      simp only [Bool.and_eq_true, decide_eq_true_eq, beq_iff_eq]
+      omega
+    simp [defineShape, CC.mem, Item.mem, isIdentStart, h95, Bool.or_assoc]
+  · have h95 : (decide (95 ≤ c) && decide (c ≤ 95)) = (c == 95) := by
+      rw [Bool.eq_iff_iff]
+      simp only [Bool.and_eq_true, decide_eq_true_eq, beq_iff_eq]
+      omega
+    simp [defineShape, CC.mem, Item.mem, isIdentChar, isIdentStart, h95, Bool.or_assoc]
+
+/-- The value capture of the model is the unit loop of `_r_define` run up to the `$`. -/
+theorem rawValue_is_regex_loop (esc : Bool) (t : Text) :
+    rawValue esc t = defineShape.value.scan (· == 10) esc t := by
+  induction t generalizing esc with
+  | nil => cases esc <;> rfl
+  | cons c r ih =>
+    have hcl := comment_classes c
+    have hv : defineShape.value = commentShape.lineBody := (define_classes c).2.2.2.2.2
+    cases esc with
+    | true =>
+      simp only [rawValue, UnitLoop.scan, hv, hcl.2.1, if_true]
+      rw [ih false, hv]
+    | false =>
+      simp only [rawValue, UnitLoop.scan, hv, hcl.2.2.1, hcl.2.2.2]
+      by_cases h10 : c = 10
+      · subst h10; rfl
+      · have e10 : (c == 10) = false := by simp [h10]
+        simp only [h10, if_false, e10, Bool.false_eq_true]
+        by_cases h92 : c = 92
+        · subst h92
+          have := ih true
+          rw [hv] at this
+          simp [this]
+        · have e92 : (c == 92) = false := by simp [h92]
+          have := ih false
+          rw [hv] at this
+          simp [h10, h92, e92, this]
+
+/-- The look-ahead of a `//` comment is "the unit loop of `_r_comment` reaches a `$`". -/
+theorem lineOk_is_regex_loop (esc : Bool) (t : Text) :
+    lineOk esc t = (commentShape.lineBody.scan (· == 10) esc t).isSome := by
+  induction t generalizing esc with
+  | nil => cases esc <;> rfl
+  | cons c r ih =>
+    have hcl := comment_classes c
+    cases esc with
+    | true =>
+      simp only [lineOk, UnitLoop.scan, hcl.2.1, if_true, Option.isSome_map]
+      exact ih false
+    | false =>
+      simp only [lineOk, UnitLoop.scan, hcl.2.2.1, hcl.2.2.2]
+      by_cases h10 : c = 10
+      · subst h10; rfl
+      · have e10 : (c == 10) = false := by simp [h10]
+        simp only [e10, Bool.false_eq_true, if_false]
+        by_cases h92 : c = 92
+        · subst h92
+          simp [ih true]
+        · have e92 : (c == 92) = false := by simp [h92]
+          simp [h10, h92, e92, ih false]
+
+end Source
 
 -- Non-vacuity.
 -- `int a; /* x */` is closed; `int a; /` and `/* x` are not.
